@@ -694,6 +694,33 @@ def gen_oneshot_burst(seed, mode="loop"):
     return sc
 
 
+def gen_shared_signal(seed, mode="loop"):
+    """C03: two modules poll the same signal (the one whose descriptor is read second finds nothing to read) and, in the same
+    poll batch, one-shot descriptor sources of a third module are ready: nothing of that batch may be dropped"""
+    r = random.Random(seed * 83 + 59)
+    sc = Sc(mode, "signal shared by two modules + one-shot sources in one batch seed=%d" % seed)
+    driven_skeleton(sc)
+    A, B, C = 1, 2, 3
+    for i, nm in ((A, "sa"), (B, "sb"), (C, "once")):
+        sc.mod(i, nm, 0, 0)
+        sc.cb(i, "evt", "*", [])
+        sc.main += [("reg", i), ("start", i)]
+    sg = r.choice([10, 12])         # SIGUSR1 / SIGUSR2
+    sc.main += [("sgn_reg", A, sg, 0, sc.ud()), ("sgn_reg", B, sg, 0, sc.ud())]
+    once = {}
+    for u in range(1, 1 + r.randrange(1, 4)):
+        sc.main += [("fd_open", u, 0, 0), ("fd_reg", C, u, SRC_ONESHOT, sc.ud())]
+        once[u] = C
+    sc.meta["max_ufd"] = 5
+    sc.meta["oneshot_fd"] = once
+    steps = [[] for _ in range(r.randrange(1, 3))]
+    steps.append([("raise", sg)] + [("fd_write", u) for u in once])
+    steps += [[], [], [("sleep", 300)], [], []]
+    driven_finish(sc, steps, rng=r)
+    finalize_main(sc)
+    return sc
+
+
 def gen_tick_in_flush(seed, mode="loop"):
     """C20: m_ctx_set_tick() called by a handler that the final flush of a loop run invokes (loop-stopped notification) while a
     tick is active"""
